@@ -74,6 +74,7 @@ type pathState struct {
 	hashes      []*hashApp
 	hstates     map[*Value]*hashState
 	pools       map[*Value][]Value // sync.Pool contents (intr_sync.go)
+	keyKind     map[*ByteObj]int64 // DER objects made by vsym.KeyPEM -> key kind
 	proveMemo   map[int]bool
 	pemLen      int
 	tableArr    map[*bnode]*Term
@@ -127,6 +128,7 @@ type PathResult struct {
 	Forks     [][]dec
 	Unknowns  int
 	Witness   *ModelJSON
+	Partial   *ModelJSON // inputs reaching the point where the executor gave up on this path
 	Obs       map[string]string
 	Steps     int
 }
@@ -373,6 +375,12 @@ func (e *Eng) runPath(fn *ssa.Function, prefix []dec, hs *HarnessRun) (res *Path
 			_ = tags
 			res.Obs = e.evalObs()
 		}
+	} else if hs.wantPartial(res) {
+		// the executor could not follow this path to its end: keep inputs that reach this point, they
+		// are run natively (concrete fallback, reported as such)
+		if m, _, ok := e.extractModel(nil); ok {
+			res.Partial = m
+		}
 	}
 	e.inModel = false
 	return res
@@ -412,6 +420,7 @@ func (e *Eng) extractModel(extra []*Term) (*ModelJSON, []string, bool) {
 	if r != Sat || len(caps) == 0 {
 		r, vals = e.solver.Check(ex, want)
 	}
+	e.lastModelResult = r
 	if r != Sat {
 		return nil, nil, false
 	}
@@ -487,6 +496,15 @@ func (e *Eng) resolveCandidate(c candidate, hs *HarnessRun) []*Finding {
 	for iter := 0; iter <= len(p.tags)+1; iter++ {
 		m, tags, ok := e.extractModel(extra)
 		if !ok {
+			if iter == 0 {
+				// no input found for this candidate: the path was entered on an undecided branch and
+				// is infeasible (unsat) or stays undecided (unknown); counted, never silently dropped
+				why := "path infeasible (entered on an undecided branch)"
+				if e.lastModelResult == Unknown {
+					why = "solver unknown: undecided"
+				}
+				e.stats.Unsupported["candidate "+strings.SplitN(c.Site, ":", 2)[0]+" without a model: "+why]++
+			}
 			break
 		}
 		f := &Finding{Harness: hs.Name, Site: c.Site, Msg: c.Msg, Where: c.Where, Tags: tags, Model: m, Prefix: prefixString(p.prefix)}
@@ -556,6 +574,8 @@ type HarnessRun struct {
 	Unsupp    map[string]int
 	Msgs      map[string]int
 	nWitness  int
+	nPartial  int
+	Partials  []*PathResult // paths the executor could not finish (unsupported construct), with inputs reaching that point
 	WitnessOK int
 }
 
@@ -566,6 +586,16 @@ func (hs *HarnessRun) wantWitness(r *PathResult) bool {
 		return false
 	}
 	hs.nWitness++
+	return true
+}
+
+func (hs *HarnessRun) wantPartial(r *PathResult) bool {
+	hs.mu.Lock()
+	defer hs.mu.Unlock()
+	if r.Outcome != "unsupported" || hs.nPartial >= 2 {
+		return false
+	}
+	hs.nPartial++
 	return true
 }
 
@@ -737,6 +767,9 @@ func (hs *HarnessRun) record(r *PathResult) {
 	}
 	if r.Witness != nil && len(hs.Witnesses) < 3 {
 		hs.Witnesses = append(hs.Witnesses, r)
+	}
+	if r.Partial != nil && len(hs.Partials) < 2 {
+		hs.Partials = append(hs.Partials, r)
 	}
 }
 
